@@ -53,7 +53,8 @@ def action_rule(rep, prog, oks):
         dfid = p.ids[0]
         counted = dfid in (17, 18)
         if ar.ip.unsummarised:
-            rep.violation("AI", "unsummarised:%s" % sorted(ar.ip.unsummarised)[0], "tracker analysis met unsummarised callees: %s" % sorted(ar.ip.unsummarised))
+            from .common import unsummarised_policy
+            unsummarised_policy(rep, ar.ip.unsummarised, "tracker analysis")
         bad_key = bad_cnt = bad_added = None
         for o in ar.outs:
             ev = [e for e in o.events if e["kind"] in ("map_entry", "map_vacancy", "map_insert", "map_mutation")]
